@@ -179,7 +179,7 @@ func c20r3(r *R) {
 				return
 			}
 			if fa, ok := st.Addr.(*ssa.FieldAddr); ok && structName(fa.X.Type()) == "ratelimit.Listener" && strings.HasSuffix(fieldName(fa.X.Type(), fa.Field), "Limiter") {
-				r.check(fn.Name() == "NewListener", fname(fn)+"#store("+fieldName(fa.X.Type(), fa.Field)+")", st.Pos(), "created once per listener", "listener limiter replaced after construction")
+				r.check(refName(fn) == "NewListener", fname(fn)+"#store("+fieldName(fa.X.Type(), fa.Field)+")", st.Pos(), "created once per listener", "listener limiter replaced after construction")
 			}
 		})
 	}
